@@ -166,6 +166,7 @@ def rv_shard(shard, tier, seed):
     part = Partial()
     xlen = shard["xlen"]
     X = (1 << xlen) - 1
+    assert rvref.self_test()
 
     def body(rnd):
         w = rvref.gen_word(rnd, xlen)
@@ -399,6 +400,7 @@ def x86_shard(shard, tier, seed):
     if not G.have_native():
         part.count("x86:fresh:no-native-executor")
         return part
+    assert G.self_test()  # (an AssertionError here is a harness error: exit 2)
     BATCH = 250
 
     def body(rnd):
